@@ -27,13 +27,27 @@ const SLOTS: [(Option<(&str, &str)>, &str); 6] = [
     (None, "r2"),
 ];
 
+/// Aliased universe: the two root files are named like the nested files ("f", "g"), so a root file
+/// and a nested file share a file name (a planner that keys anything by bare file name is exposed).
+static ALIAS: std::sync::atomic::AtomicBool = std::sync::atomic::AtomicBool::new(false);
+fn alias_on() -> bool {
+    ALIAS.load(std::sync::atomic::Ordering::Relaxed)
+}
+fn slot(i: usize) -> (Option<(&'static str, &'static str)>, &'static str) {
+    if alias_on() && SLOTS[i].0.is_none() {
+        (None, if i == 4 { "f" } else { "g" })
+    } else {
+        SLOTS[i]
+    }
+}
+
 /// An artifact set: content per slot, 0 = absent.
 type Set = Vec<u8>;
 
 fn slot_path(i: usize) -> String {
-    match SLOTS[i].0 {
-        Some((e, s)) => format!("{e}/{s}/{}", SLOTS[i].1),
-        None => SLOTS[i].1.to_string(),
+    match slot(i).0 {
+        Some((e, s)) => format!("{e}/{s}/{}", slot(i).1),
+        None => slot(i).1.to_string(),
     }
 }
 
@@ -59,9 +73,9 @@ fn artifacts(set: &Set) -> Vec<ArtifactPathAndContent> {
         if *c == 0 {
             continue;
         }
-        let type_and_field = SLOTS[i].0.map(|(e, s)| EntityNameAndSelectableName { parent_entity_name: e.intern().into(), selectable_name: s.intern().into() });
+        let type_and_field = slot(i).0.map(|(e, s)| EntityNameAndSelectableName { parent_entity_name: e.intern().into(), selectable_name: s.intern().into() });
         v.push(ArtifactPathAndContent {
-            artifact_path: ArtifactPath { type_and_field, file_name: SLOTS[i].1.intern().into() },
+            artifact_path: ArtifactPath { type_and_field, file_name: slot(i).1.intern().into() },
             file_content: format!("content-{c}-of-{}", slot_path(i)).into(),
         });
     }
@@ -135,6 +149,9 @@ struct Case {
     init: InitDir,
     session: Vec<Set>,
     fault: Option<Fault>,
+    /// aliased universe (root files named "f" / "g")
+    #[serde(default)]
+    alias: bool,
 }
 
 #[derive(Debug)]
@@ -163,6 +180,7 @@ struct Outcome {
 
 /// Execute one case on the real code. `dir` is the artifact directory.
 fn run_case(dir: &Path, case: &Case) -> Outcome {
+    ALIAS.store(case.alias, std::sync::atomic::Ordering::Relaxed);
     setup_dir(dir, &case.init);
     let mut state: Option<FileSystemState> = None;
     let mut failures = vec![];
@@ -247,6 +265,8 @@ fn run_case(dir: &Path, case: &Case) -> Outcome {
 struct Shard {
     mode: String,
     slots: Vec<usize>,
+    #[serde(default)]
+    alias: bool,
     /// index range of the first set of the session
     lo: usize,
     hi: usize,
@@ -295,6 +315,7 @@ fn worker(args: &Args, shard: &str) {
     let sh: Shard = serde_json::from_str(shard).unwrap_or_else(|e| machinery_error(&format!("bad shard {e}")));
     let scratch = Scratch::new("fs");
     let dir = scratch.path().join("__isograph");
+    ALIAS.store(sh.alias, std::sync::atomic::Ordering::Relaxed);
     let sets = all_sets(&sh.slots);
     let mut stats = Stats::default();
     let thorough = args.tier == Tier::Thorough;
@@ -308,7 +329,7 @@ fn worker(args: &Args, shard: &str) {
                     inits.push(InitDir::Holds(other.clone(), true));
                 }
                 for init in inits {
-                    let case = Case { init, session: vec![s.clone()], fault: None };
+                    let case = Case { init, session: vec![s.clone()], fault: None, alias: alias_on() };
                     let out = run_case(&dir, &case);
                     record(&mut stats, case, out, s.iter().any(|c| *c != 0));
                 }
@@ -319,12 +340,12 @@ fn worker(args: &Args, shard: &str) {
             for a in &sets[sh.lo..sh.hi] {
                 for b in &sets {
                     if sh.mode == "pairs" {
-                        let case = Case { init: InitDir::Empty, session: vec![a.clone(), b.clone()], fault: None };
+                        let case = Case { init: InitDir::Empty, session: vec![a.clone(), b.clone()], fault: None, alias: alias_on() };
                         let out = run_case(&dir, &case);
                         record(&mut stats, case, out, a != b);
                     } else {
                         for c in &sets {
-                            let case = Case { init: InitDir::Missing, session: vec![a.clone(), b.clone(), c.clone()], fault: None };
+                            let case = Case { init: InitDir::Missing, session: vec![a.clone(), b.clone(), c.clone()], fault: None, alias: alias_on() };
                             let out = run_case(&dir, &case);
                             record(&mut stats, case, out, a != b && b != c);
                         }
@@ -337,7 +358,7 @@ fn worker(args: &Args, shard: &str) {
             for a in &sets[sh.lo..sh.hi] {
                 for b in &sets {
                     // learn the plan length fault-free
-                    let probe = Case { init: InitDir::Empty, session: vec![a.clone(), b.clone()], fault: Some(Fault { compile: 1, at: usize::MAX, torn: false, same_session: true }) };
+                    let probe = Case { init: InitDir::Empty, session: vec![a.clone(), b.clone()], fault: Some(Fault { compile: 1, at: usize::MAX, torn: false, same_session: true }), alias: alias_on() };
                     let n = run_case(&dir, &probe).plan_len_at_fault.unwrap_or(0);
                     for at in 0..n {
                         for torn in [false, true] {
@@ -354,7 +375,7 @@ fn worker(args: &Args, shard: &str) {
                                 for cont in conts {
                                     let mut session = vec![a.clone(), b.clone()];
                                     session.extend(cont);
-                                    let case = Case { init: InitDir::Empty, session, fault: Some(Fault { compile: 1, at, torn, same_session }) };
+                                    let case = Case { init: InitDir::Empty, session, fault: Some(Fault { compile: 1, at, torn, same_session }), alias: alias_on() };
                                     let out = run_case(&dir, &case);
                                     let fired = out.fault_fired;
                                     record(&mut stats, case, out, fired);
@@ -363,12 +384,12 @@ fn worker(args: &Args, shard: &str) {
                         }
                     }
                     // a fault during the very first compile of a session (recreate_all plan)
-                    let probe = Case { init: InitDir::Holds(a.clone(), true), session: vec![b.clone()], fault: Some(Fault { compile: 0, at: usize::MAX, torn: false, same_session: true }) };
+                    let probe = Case { init: InitDir::Holds(a.clone(), true), session: vec![b.clone()], fault: Some(Fault { compile: 0, at: usize::MAX, torn: false, same_session: true }), alias: alias_on() };
                     let n = run_case(&dir, &probe).plan_len_at_fault.unwrap_or(0);
                     for at in 0..n {
                         for same_session in [true, false] {
                             for cont in [b.clone(), a.clone()] {
-                                let case = Case { init: InitDir::Holds(a.clone(), true), session: vec![b.clone(), cont], fault: Some(Fault { compile: 0, at, torn: at % 2 == 1, same_session }) };
+                                let case = Case { init: InitDir::Holds(a.clone(), true), session: vec![b.clone(), cont], fault: Some(Fault { compile: 0, at, torn: at % 2 == 1, same_session }), alias: alias_on() };
                                 let out = run_case(&dir, &case);
                                 let fired = out.fault_fired;
                                 record(&mut stats, case, out, fired);
@@ -421,12 +442,15 @@ fn main() {
     let four: Vec<usize> = vec![0, 1, 2, 4];
     let five: Vec<usize> = vec![0, 1, 2, 3, 4];
     let mut shards = vec![];
-    let mut push = |mode: &str, slots: &Vec<usize>, chunks: usize| {
+    // aliased universe (root files named like nested files): both files of A/x, a second selectable, both root files
+    let alias_five: Vec<usize> = vec![0, 1, 2, 4, 5];
+    let alias_four: Vec<usize> = vec![0, 1, 4, 5];
+    let mut push_u = |mode: &str, slots: &Vec<usize>, chunks: usize, alias: bool| {
         let n = 3usize.pow(slots.len() as u32);
         let step = n.div_ceil(chunks);
         let mut lo = 0;
         while lo < n {
-            shards.push(serde_json::to_string(&Shard { mode: mode.into(), slots: slots.clone(), lo, hi: (lo + step).min(n) }).unwrap());
+            shards.push(serde_json::to_string(&Shard { mode: mode.into(), slots: slots.clone(), alias, lo, hi: (lo + step).min(n) }).unwrap());
             lo += step;
         }
     };
@@ -434,27 +458,34 @@ fn main() {
     if args.property == "C18" {
         match args.tier {
             Tier::Quick => {
-                push("first", &five, 32);
-                push("pairs", &full, 48);
-                push("triples", &four, 27);
-                plan = vec!["first: 243 sets x (2 + 2*243) initial dirs", "pairs: 729^2 ordered pairs", "triples: 81^3"];
+                push_u("first", &five, 32, false);
+                push_u("pairs", &full, 48, false);
+                push_u("triples", &four, 27, false);
+                push_u("pairs", &alias_five, 27, true);
+                push_u("first", &alias_four, 9, true);
+                plan = vec!["first: 243 sets x (2 + 2*243) initial dirs", "pairs: 729^2 ordered pairs", "triples: 81^3", "aliased universe (root files named f, g like the nested files): pairs 243^2, first 81 x (2 + 2*81)"];
             }
             Tier::Thorough => {
-                push("first", &full, 64);
-                push("pairs", &full, 48);
-                push("triples", &five, 81);
-                plan = vec!["first: 729 sets x (2 + 2*729) initial dirs", "pairs: 729^2 ordered pairs", "triples: 243^3"];
+                push_u("first", &full, 64, false);
+                push_u("pairs", &full, 48, false);
+                push_u("triples", &five, 81, false);
+                push_u("pairs", &full, 48, true);
+                push_u("first", &alias_five, 27, true);
+                push_u("triples", &alias_four, 27, true);
+                plan = vec!["first: 729 sets x (2 + 2*729) initial dirs", "pairs: 729^2 ordered pairs", "triples: 243^3", "aliased universe (root files named f, g like the nested files): pairs 729^2, first 243 x (2 + 2*243), triples 81^3"];
             }
         }
     } else {
         match args.tier {
             Tier::Quick => {
-                push("faults", &four, 27);
-                plan = vec!["faults: 81^2 plans x every op index x {error, torn} x {same session, fresh process} x 23 continuations; + first-compile plans"];
+                push_u("faults", &four, 27, false);
+                push_u("faults", &vec![0, 4, 5], 9, true);
+                plan = vec!["aliased universe {A/x/f, root f, root g}: 27^2 plans, same fault space", "faults: 81^2 plans x every op index x {error, torn} x {same session, fresh process} x 23 continuations; + first-compile plans"];
             }
             Tier::Thorough => {
-                push("faults", &five, 81);
-                plan = vec!["faults: 243^2 plans x every op index x {error, torn} x {same session, fresh process} x 32 continuations (b, a, every 9th set, three two-step ones); + first-compile plans"];
+                push_u("faults", &five, 81, false);
+                push_u("faults", &alias_four, 27, true);
+                plan = vec!["aliased universe {A/x/f, A/x/g, root f, root g}: 81^2 plans, same fault space", "faults: 243^2 plans x every op index x {error, torn} x {same session, fresh process} x 32 continuations (b, a, every 9th set, three two-step ones); + first-compile plans"];
             }
         }
     }
@@ -496,7 +527,7 @@ fn main() {
         .set("states", cases)
         .set("transitions", ops)
         .set("traces_validated_against_impl", cases)
-        .set("rule", "C18: every artifact set over the slot universe {A/x/f, A/x/g, A/y/f, B/x/f, r1, r2} x content {absent,1,2}, every initial directory, every ordered pair / triple of sets through the real planner and applier on a real directory; non-trivial = the sets of the session differ. C19: every operation index of every plan, both fault kinds, both continuations; non-trivial = the injected fault actually fired")
+        .set("rule", "C18: every artifact set over the slot universe {A/x/f, A/x/g, A/y/f, B/x/f, r1, r2} (and the aliased universe in which r1, r2 are named f, g like the nested files) x content {absent,1,2}, every initial directory, every ordered pair / triple of sets through the real planner and applier on a real directory; non-trivial = the sets of the session differ. C19: every operation index of every plan, both fault kinds, both continuations; non-trivial = the injected fault actually fired")
         .set("plan", json!(plan))
         .set("outcomes", outcomes.len())
         .set("shards", n_shards)
